@@ -302,10 +302,18 @@ func (g *Gen) contractCall(in *ssa.Call, con *Contract, callee *ssa.Function, co
 	// preconditions
 	pre := st.clone()
 	envPre := &Env{c: g.Ctx, vars: vars, st: pre, pkg: cpkg}
-	for i, cl := range con.Requires {
+	var reqs []*Clause
+	for _, cl := range con.Requires {
+		if cl.Assumed {
+			g.trusted["assumed precondition (resource bound) of "+short+": "+cl.Src] = true
+			continue
+		}
 		if !clauseActive(cl, g.fmode) {
 			continue
 		}
+		reqs = append(reqs, g.partClauses(cl)...)
+	}
+	for i, cl := range reqs {
 		s := g.mustEval(cl, envPre)
 		lab := cl.Label
 		if lab == "" {
@@ -1097,7 +1105,7 @@ func (g *Gen) bytesToString(s string, st *State) string {
 		}
 		parts := ""
 		for j := int64(0); j < n; j++ {
-			g.seeIndex(fmt.Sprint(j))
+			g.seeIndex(fmt.Sprint(j), "")
 			parts += fmt.Sprintf(" (str.from_code (select (select %s (s-ref %s)) (+ (s-off %s) %d)))", E, s, s, j)
 		}
 		if n == 1 {
